@@ -107,7 +107,10 @@ func resourceMetadataURLFromResource(resource string) (string, error) {
 	}
 	path := strings.TrimSuffix(u.Path, "/")
 	u.Path = wellKnownURL(path)
-	return u.String(), nil
+	// The URL is emitted inside a quoted header parameter. net/url keeps a
+	// double quote verbatim in the query and the host; escaped, it cannot
+	// end the quoted value early.
+	return strings.ReplaceAll(u.String(), `"`, "%22"), nil
 }
 
 // ToJSON serializes the metadata to JSON.
